@@ -172,13 +172,36 @@ def gposKeys : List Nat := [11, 12, 21, 22, 31, 41, 51, 61, 71, 72, 73, 81, 82, 
 the key `10*type + format`, called with the parser at `pos + 2` and `subtablePos = pos` -/
 abbrev SubReaders (σ : Type) := Nat → Nat → Nat → Outcome (σ × Cost)
 
-/-- `readGsubSubtable` / `readGposSubtable`: `keys` are the keys of the reader table, `extKey` the
-key under which `readExtensionSubtable` is stored (71 / 91).  The key is computed in `uint16`:
-`10*meta.LookupType+format` WRAPS, so e.g. (type 0, format 71), (type 6560, format 7) and
-(type 7, format 1) all select `readExtensionSubtable`.  The map read has the comma-ok form: a
-miss is an `InvalidFontError`, never a call of a nil function; every stored value is a function
-literal of the static table. -/
+/-- `readGsubSubtable` / `readGposSubtable` (gsub.go:30-50 / gpos.go:34-54, as repaired in /repo
+8867078): `keys` are the keys of the reader table, `extKey` the key under which
+`readExtensionSubtable` is stored (71 / 91).  The key `10*meta.LookupType+format` is still
+computed in `uint16` (it wraps), but the guard
+`!ok || meta.LookupType > 9 || format > 9` refuses every value for which it could wrap or collide.
+The map read has the comma-ok form: a miss is an `InvalidFontError`, never a call of a nil
+function; every stored value is a function literal of the static table. -/
 def dispatch {σ : Type} (siteRead : String) (keys : List Nat) (extKey : Nat) (sub : SubReaders σ)
+    (b : Bytes) (tp pos : Nat) : Outcome (SubV σ × Cost) := do
+  let format ← rd16 siteRead b pos
+  let key := (10 * tp + format) % 65536
+  if !keys.contains key || decide (tp > 9) || decide (format > 9) then .err "invalid"
+  else if key = extKey then do
+    let (v, d) ← readExtensionSubtable b (pos + 2)
+    .ok (v, d.tick)
+  else do
+    let (v, d) ← sub (key / 10) (key % 10) pos
+    .ok (.other v, d.tick)
+
+def gsubReader {σ : Type} (sub : SubReaders σ) (b : Bytes) : Reader σ :=
+  dispatch "gsub.go:36#ReadUint16" gsubKeys 71 sub b
+
+def gposReader {σ : Type} (sub : SubReaders σ) (b : Bytes) : Reader σ :=
+  dispatch "gpos.go:40#ReadUint16" gposKeys 91 sub b
+
+/-- the dispatchers BEFORE the repair 8867078 (`if !ok { error }` only): the `uint16` key wraps, so
+e.g. (type 0, format 71), (type 6560, format 7) and (type 7, format 1) all selected
+`readExtensionSubtable`, (type 6554, format 7) the reader of GSUB 1.1.  Kept only to state the
+finding C02-lookuplist-ext-ext (`ext_ext_survives`, `dispatch_key_wraps`). -/
+def dispatchOld {σ : Type} (siteRead : String) (keys : List Nat) (extKey : Nat) (sub : SubReaders σ)
     (b : Bytes) (tp pos : Nat) : Outcome (SubV σ × Cost) := do
   let format ← rd16 siteRead b pos
   let key := (10 * tp + format) % 65536
@@ -191,11 +214,9 @@ def dispatch {σ : Type} (siteRead : String) (keys : List Nat) (extKey : Nat) (s
       .ok (.other v, d.tick)
   else .err "invalid"
 
-def gsubReader {σ : Type} (sub : SubReaders σ) (b : Bytes) : Reader σ :=
-  dispatch "gsub.go:36#ReadUint16" gsubKeys 71 sub b
-
-def gposReader {σ : Type} (sub : SubReaders σ) (b : Bytes) : Reader σ :=
-  dispatch "gpos.go:40#ReadUint16" gposKeys 91 sub b
+/-- pre-repair `readGsubSubtable` -/
+def gsubReaderOld {σ : Type} (sub : SubReaders σ) (b : Bytes) : Reader σ :=
+  dispatchOld "gsub.go:36#ReadUint16" gsubKeys 71 sub b
 
 /-- the subtable reader of `gtab.VerifReadLookupList(data, pos, extType)` (verif_export.go): an
 extension record for lookup type `extType` (format word 1, then `readExtensionSubtable`), otherwise
